@@ -75,6 +75,13 @@ func Make[T any](n ...int) chan T {
 	s := S
 	s.nchan++
 	s.chans[chanKey(ch)] = &chanModel{id: s.nchan, nm: "ch" + strconv.Itoa(s.nchan), cap: c, keep: ch}
+	if s.cfg.YieldOnMake && !s.inTimerSetup {
+		// Creating a channel is not a synchronization operation, but it is a convenient extra
+		// preemption point: lazily created locks/channels ("if x.ch == nil { x.ch = make(...) }")
+		// are only wrong if somebody else runs between the test and the assignment.
+		s.event("make", "")
+		s.yield()
+	}
 	return ch
 }
 
